@@ -170,6 +170,10 @@ def _r19e(chk, repo) -> None:
                             for c in [x for x in ast.walk(e) if isinstance(x, ast.Call) and last_attr(x) == "get_violations" and isinstance(x.func, ast.Attribute)]:
                                 n += 1
                                 fw = kwarg(c, "filter_warning")
+                                if isinstance(fw, ast.Name):
+                                    cv = _canon_value(cfg, fw, cfg.stmt_of(c) or cfg.stmt_of(node) or node)
+                                    if cv == ("const", "False"):
+                                        fw = ast.Constant(value=False)
                                 chk.require(
                                     isinstance(fw, ast.Constant) and fw.value is False, "R19e", c,
                                     f"{q} turns `{short(c, 60)}` into records: without filter_warning=False the warning-level violations are dropped here while the other "
@@ -642,6 +646,12 @@ def _r19c(chk, repo) -> None:
 from ..selftest import Variant  # noqa: E402
 
 VARIANTS = [
+    Variant(
+        "quiet-record-builder-switch-through-a-local", "src/sqlfluff/core/linter/linted_dir.py",
+        "        violation_records = sorted(\n            # Keep the warnings\n            (v.to_dict() for v in file.get_violations(filter_warning=False)),\n",
+        "        drop_warnings = False\n        all_violations = file.get_violations(filter_warning=drop_warnings)\n        violation_records = sorted(\n            (v.to_dict() for v in all_violations),\n",
+        "QUIET", None, "R19e: (with the line below) the list is taken first, the switch held in a local",
+    ),
     Variant(
         "api-lint-serialises-filtered-violations", API,
         "    result = linter.lint_string_wrapped(sql)\n    result_records = result.as_records()\n    # Return just the violations for this file\n    return [] if not result_records else result_records[0][\"violations\"]\n",
